@@ -428,6 +428,15 @@ theorem nested_results_typeerror (types : List Ty) (cb : Nat) (es : List ElemKin
 example : behaviourOfElems [.var, .seqOfVars] = .hasNonVar 2 ∧ behaviourOfElems [.var, .var, .var] = .returnsVars 3
     ∧ behaviourOfElems [] = .returnsVars 0 := by decide
 
+/-- **The `types` argument.** A well-formed `types` — whatever iterable — is `subgraph` on its elements;
+    a malformed one is a TypeError that leaves the world untouched (no argument Var created, the
+    callback not invoked). -/
+theorem types_arg_validated (ta : TypesArg) (cb : Nat) (beh : CbBehaviour) (w : World) :
+    (∀ ts, ta = .ok ts → subgraphEntry ta cb beh w = subgraphCall ts cb beh w)
+      ∧ ((∀ ts, ta ≠ .ok ts) → subgraphEntry ta cb beh w = (.error .typeError, w)
+          ∧ (subgraphEntry ta cb beh w).2.count cb = w.count cb) := by
+  cases ta <;> simp [subgraphEntry]
+
 /-! ## Nested control flow
 
 A callback may itself call control-flow constructors (with callbacks that do so again, …). `Tree` /
